@@ -454,7 +454,7 @@ static void gen_ctor(plan_t *p, rng_t *r, int slot, int isnew, int hard, int big
 
 static void gen(plan_t *p, rng_t *r)
 {
-    int nops = rng_range(r, 4, 40), hard = rng_chance(r, 1, 6), big = rng_chance(r, 1, 5);
+    int nops = rng_range(r, 4, 40 * sim_tier_scale()), hard = rng_chance(r, 1, 6), big = rng_chance(r, 1, 5);
     memset(gexists, 0, sizeof(gexists)); memset(glen, 0, sizeof(glen)); memset(gdone, 0, sizeof(gdone));
     plan_knob(p, "viaclass", rng_chance(r, 1, 3));
     plan_knob(p, "hard", hard);
